@@ -562,13 +562,11 @@ Proof.
   - split; [exact L2 | exists r'; exact R2].
 Qed.
 
-Lemma assign_children_DWF : forall s p cont args, DWF s -> p < dsize s ->
-  forallb (darg_in_range s) args = true -> check_children s p cont args = None ->
+Lemma assign_children_DWF : forall s p args, DWF s -> p < dsize s ->
+  forallb (darg_in_range s) args = true -> check_children_loop s p args [] = None ->
   DWF (assign_children s p (ids_of args)).
 Proof.
-  intros s p cont args W Hp Hrange Hchk. pose proof W as [L [r R]].
-  assert (Hchk' : check_children_loop s p args [] = None).
-  { unfold check_children in Hchk. destruct cont; try discriminate; exact Hchk. }
+  intros s p args W Hp Hrange Hchk'. pose proof W as [L [r R]].
   apply check_children_loop_ok in Hchk'. destruct Hchk' as [_ [_ Hall]].
   set (M := S (r p)).
   set (r' := fun x => if below s (ids_of args) x then r x + M else r x).
@@ -612,9 +610,10 @@ Lemma set_children_DWF : forall cfg ft s p cont args, DWF s -> p < dsize s ->
   forallb (darg_in_range s) args = true -> DWF (fst (set_children cfg ft s p cont args)).
 Proof.
   intros cfg ft s p cont args W Hp Hr. unfold set_children.
-  destruct (check_children s p cont args) eqn:Hchk; [exact W|].
+  destruct (materialise cont); [exact W|].
+  destruct (check_children_loop s p args []) eqn:Hchk; [exact W|].
   destruct (dfault_eqb ft DPreFail); [exact W|].
-  pose proof (assign_children_DWF s p cont args W Hp Hr Hchk) as W2.
+  pose proof (assign_children_DWF s p args W Hp Hr Hchk) as W2.
   destruct (dfault_eqb ft DPostFail); cbn [fst]; [apply children_rollback_DWF; exact W2 | exact W2].
 Qed.
 
@@ -630,7 +629,8 @@ Qed.
 
 Lemma set_children_size : forall cfg ft s p cont args, dsize (fst (set_children cfg ft s p cont args)) = dsize s.
 Proof.
-  intros. unfold set_children. destruct (check_children s p cont args); [reflexivity|].
+  intros. unfold set_children. destruct (materialise cont); [reflexivity|].
+  destruct (check_children_loop s p args []); [reflexivity|].
   destruct (dfault_eqb ft DPreFail); [reflexivity|].
   assert (Hrb : forall news s0 st, dsize (children_rollback s0 st p news) = dsize st).
   { unfold children_rollback. induction news as [|x t IH]; intros s0 st; cbn [fold_left]; [reflexivity|].
@@ -895,13 +895,12 @@ Lemma set_children_atomic : forall cfg ft s p cont args, DWF s ->
   snd (set_children cfg ft s p cont args) <> Ok -> same_state (fst (set_children cfg ft s p cont args)) s.
 Proof.
   intros cfg ft s p cont args [L _] Herr. unfold set_children in *.
-  destruct (check_children s p cont args) eqn:Hchk; [apply same_state_refl|].
+  destruct (materialise cont); [apply same_state_refl|].
+  destruct (check_children_loop s p args []) eqn:Hchk; [apply same_state_refl|].
   destruct (dfault_eqb ft DPreFail); [apply same_state_refl|].
   destruct (dfault_eqb ft DPostFail); cbn [fst snd] in *; [|contradiction].
   assert (Hnd : NoDup (ids_of args)).
-  { assert (Hchk' : check_children_loop s p args [] = None).
-    { unfold check_children in Hchk. destruct cont; try discriminate; exact Hchk. }
-    apply check_children_loop_ok in Hchk'. tauto. }
+  { apply check_children_loop_ok in Hchk. tauto. }
   set (news := ids_of args) in *.
   assert (Hsym : forall x, memb p (parents s x) = memb x (children s p)).
   { intros x. apply memb_iff. apply (l_sym s L). }
@@ -977,7 +976,8 @@ Lemma set_children_cfg : forall cfg1 cfg2 ft s p cont args,
   set_children cfg2 ft s p cont args = set_children cfg1 ft s p cont args.
 Proof.
   intros cfg1 cfg2 ft s p cont args H. unfold set_children in *.
-  destruct (check_children s p cont args); [discriminate | reflexivity].
+  destruct (materialise cont); [reflexivity|].
+  destruct (check_children_loop s p args []); [discriminate | reflexivity].
 Qed.
 
 Theorem dag_assert_irrelevant_any : forall cfg1 cfg2 s o s',
@@ -1112,7 +1112,8 @@ Lemma set_children_effect : forall cfg ft s s' p cont args,
   forall q x, In q (parents s' x) <-> In q (parents s x) \/ (q = p /\ In x (ids_of args)).
 Proof.
   intros cfg ft s s' p cont args H q x. unfold set_children in H.
-  destruct (check_children s p cont args); [discriminate|].
+  destruct (materialise cont); [discriminate|].
+  destruct (check_children_loop s p args []); [discriminate|].
   destruct (dfault_eqb ft DPreFail); [discriminate|].
   destruct (dfault_eqb ft DPostFail); [discriminate|].
   injection H as <-. apply ac_parents_In.
@@ -1275,19 +1276,17 @@ Theorem set_children_accepts_iff : forall cfg s p cont args, DWF s ->
    forall x, In x (ids_of args) -> x <> p /\ ~ path s x p).
 Proof.
   intros cfg s p cont args W. unfold set_children. split.
-  - destruct (check_children s p cont args) eqn:Hchk; [discriminate|]. intros _.
-    assert (Hc : cont <> DNonIter /\ check_children_loop s p args [] = None).
-    { unfold check_children in Hchk. destruct cont; try discriminate; split; try exact Hchk; discriminate. }
-    destruct Hc as [Hc Hchk']. split; [exact Hc|].
+  - destruct (materialise cont) eqn:Hm; [discriminate|].
+    destruct (check_children_loop s p args []) eqn:Hchk'; [discriminate|]. intros _.
+    split; [intro; subst; discriminate|].
     apply check_children_loop_ok in Hchk'. destruct Hchk' as [Hj [Hnd Hall]]. split; [exact Hj|]. split; [exact Hnd|].
     intros x Hx. destruct (Hall x Hx) as [H1 [H2 _]]. split; [exact H1|]. apply ancestors_memb_false; assumption.
   - intros [Hc [Hj [Hnd Hall]]].
-    assert (Hchk : check_children s p cont args = None).
-    { assert (Hl : check_children_loop s p args [] = None).
-      { apply check_children_loop_complete; [exact Hj | exact Hnd |].
-        intros x Hx. destruct (Hall x Hx) as [H1 H2]. split; [exact H1|]. split; [apply ancestors_memb_false; assumption | intros []]. }
-      unfold check_children. destruct cont; try exact Hl. contradiction. }
-    rewrite Hchk. reflexivity.
+    assert (Hm : materialise cont = None) by (destruct cont; try reflexivity; contradiction).
+    assert (Hl : check_children_loop s p args [] = None).
+    { apply check_children_loop_complete; [exact Hj | exact Hnd |].
+      intros x Hx. destruct (Hall x Hx) as [H1 H2]. split; [exact H1|]. split; [apply ancestors_memb_false; assumption | intros []]. }
+    rewrite Hm, Hl. reflexivity.
 Qed.
 
 (* ------------------------------------------------------------------------------------------ *)
@@ -1389,10 +1388,11 @@ Proof.
 Qed.
 
 Lemma set_children_ok_check : forall cfg ft s p cont args s',
-  set_children cfg ft s p cont args = (s', Ok) -> check_children s p cont args = None.
+  set_children cfg ft s p cont args = (s', Ok) -> check_children_loop s p args [] = None.
 Proof.
   intros cfg ft s p cont args s' H. unfold set_children in H.
-  destruct (check_children s p cont args); [discriminate | reflexivity].
+  destruct (materialise cont); [discriminate|].
+  destruct (check_children_loop s p args []); [discriminate | reflexivity].
 Qed.
 
 Lemma parents_ok_no_reject : forall s c cont args, DWF s -> check_parents s c cont args = None ->
@@ -1405,13 +1405,11 @@ Proof.
   apply ancestors_memb_false; assumption.
 Qed.
 
-Lemma children_ok_no_reject : forall s p cont args, DWF s -> check_children s p cont args = None ->
+Lemma children_ok_no_reject : forall s p args, DWF s -> check_children_loop s p args [] = None ->
   has_junk args = false /\ nodupb (ids_of args) = true /\
   forall x, In x (ids_of args) -> closes_loop_b s p x = false.
 Proof.
-  intros s p cont args W H.
-  assert (H' : check_children_loop s p args [] = None).
-  { unfold check_children in H. destruct cont; try discriminate; exact H. }
+  intros s p args W H'.
   apply check_children_loop_ok in H'. destruct H' as [Hj [Hnd Hall]]. split; [exact Hj|]. split; [apply nodupb_NoDup; exact Hnd|].
   intros x Hx. destruct (Hall x Hx) as [H1 [H2 _]]. apply closes_loop_false; [exact W | intro; subst; apply H1; reflexivity |].
   apply ancestors_memb_false; assumption.
@@ -1458,8 +1456,7 @@ Proof.
     assert (J1 : has_junk (carg_args pa) = false /\ nodupb (ids_of (carg_args pa)) = true).
     { unfold check_parents in C1. destruct (carg_cont pa); try discriminate.
       apply check_parent_loop_ok in C1. destruct C1 as [Hj [Hnd _]]. split; [exact Hj | apply nodupb_NoDup; exact Hnd]. }
-    assert (C2' : check_children_loop s2 (dsize s) (carg_args ca) [] = None).
-    { unfold check_children in C2. destruct (carg_cont ca); try discriminate; exact C2. }
+    pose proof C2 as C2'.
     apply check_children_loop_ok in C2'. destruct C2' as [Hj2 [Hnd2 Hall2]].
     destruct J1 as [-> ->]. rewrite Hj2. apply nodupb_NoDup in Hnd2. rewrite Hnd2. cbn [negb orb].
     apply existsb_false_all. intros c Hc. apply existsb_false_all. intros p Hp.
@@ -1637,4 +1634,81 @@ Proof.
       destruct H4 as [G1 G2]. split; [apply Nat.ltb_lt; exact G1 | apply memb_In; exact G2].
   - exists (surv s (dsize s) (dids (dsize s))). intros p c Hc Hp. apply surv_rank; [| unfold dids; apply in_seq; lia | exact Hp].
     unfold acyclic_b in Ha. destruct (peel_n s (dsize s) (dids (dsize s))); [reflexivity | discriminate].
+Qed.
+
+(* ------------------------------------------------------------------------------------------ *)
+(** * Exactly which constructor calls are refused *)
+
+Lemma existsb_false_inv : forall {A} (f : A -> bool) l, existsb f l = false -> forall x, In x l -> f x = false.
+Proof.
+  intros A f l H x Hx. apply not_true_is_false. intro Hf.
+  assert (E : existsb f l = true) by (apply existsb_exists; exists x; split; assumption).
+  rewrite H in E. discriminate.
+Qed.
+
+Lemma path_first_edge : forall s a b, path s a b -> exists m, In a (parents s m).
+Proof. induction 1 as [a b H | a p b _ IH _]; [exists b; exact H | exact IH]. Qed.
+
+(** DAGNode(nm, parents=pa, children=ca) with hooks that do not fail is accepted iff pa is a list,
+    ca is iterable, and the property's `must_reject_b` is false (no non-node or repeated member, no
+    child that is one of the parents or an ancestor of one of them) *)
+Theorem construct_accepts_iff : forall cfg s nm pa ca, DWF s ->
+  dop_in_range s (DNew nm pa ca DNoFault DNoFault) = true ->
+  (snd (dstep cfg s (DNew nm pa ca DNoFault DNoFault)) = Ok <->
+   carg_cont pa = DList /\ carg_cont ca <> DNonIter
+   /\ must_reject_b s (DNew nm pa ca DNoFault DNoFault) = false).
+Proof.
+  intros cfg s nm pa ca W Hr. pose proof W as [L _]. split.
+  - intros Hok. destruct (dstep cfg s (DNew nm pa ca DNoFault DNoFault)) as [s' out] eqn:E.
+    cbn [snd] in Hok. subst out. split; [|split; [|eapply accepted_not_must_reject; eassumption]].
+    + unfold dstep in E. rewrite Hr in E. cbn [negb] in E. unfold construct in E.
+      destruct (set_parents cfg DNoFault (alloc s nm) (dsize s) (carg_cont pa) (carg_args pa)) as [s2 o2] eqn:E1.
+      destruct o2; [|discriminate]. apply set_parents_ok_check in E1. unfold check_parents in E1.
+      destruct (carg_cont pa); try discriminate. reflexivity.
+    + unfold dstep in E. rewrite Hr in E. cbn [negb] in E. unfold construct in E.
+      destruct (set_parents cfg DNoFault (alloc s nm) (dsize s) (carg_cont pa) (carg_args pa)) as [s2 o2].
+      destruct o2; [|discriminate]. unfold set_children in E. intro Hc. rewrite Hc in E. discriminate.
+  - intros [Hpl [Hci Hmr]]. unfold dstep. rewrite Hr. cbn [negb]. unfold construct.
+    cbn [dop_in_range] in Hr. apply andb_true_iff in Hr. destruct Hr as [Hrp Hrc].
+    cbn [must_reject_b] in Hmr. rewrite !orb_false_iff in Hmr.
+    destruct Hmr as [[[[Hjp Hjc] Hndp] Hndc] Hloop].
+    apply negb_false_iff, nodupb_NoDup in Hndp. apply negb_false_iff, nodupb_NoDup in Hndc.
+    set (x := dsize s).
+    pose proof (alloc_DWF s nm W) as W1.
+    assert (Hnox : forall m, ~ In x (parents s m)).
+    { intros m Hm. apply (l_bnd s L) in Hm. unfold x in Hm. lia. }
+    (* the parents assignment on the fresh object is accepted *)
+    assert (A1 : snd (set_parents cfg DNoFault (alloc s nm) x (carg_cont pa) (carg_args pa)) = Ok).
+    { apply set_parents_accepts_iff; [exact W1|]. split; [exact Hpl|]. split; [exact Hjp|]. split; [exact Hndp|].
+      intros p Hp. pose proof (ids_in_range s _ Hrp p Hp) as Hlt. split; [unfold x; lia|].
+      intro Hpath. apply path_first_edge in Hpath. destruct Hpath as [m Hm].
+      apply alloc_parents_In in Hm; [|exact W]. exact (Hnox m Hm). }
+    pose proof (set_parents_DWF cfg DNoFault (alloc s nm) x (carg_cont pa) (carg_args pa) W1) as W2.
+    destruct (set_parents cfg DNoFault (alloc s nm) x (carg_cont pa) (carg_args pa)) as [s2 o2] eqn:E1.
+    cbn [fst snd] in *. subst o2.
+    assert (W2' : DWF s2).
+    { apply W2; [cbn; unfold x; lia|]. eapply range_mono; [|exact Hrp]. cbn. lia. }
+    pose proof (set_parents_effect _ _ _ _ _ _ _ E1) as Eff.
+    assert (Hpx : forall q, In q (parents s2 x) <-> In q (ids_of (carg_args pa))).
+    { intros q. rewrite Eff, alloc_parents_In by exact W. split.
+      - intros [H|[_ H]]; [exfalso; apply (l_bnd s L) in H; unfold x in H; lia | exact H].
+      - intros H. right. split; [reflexivity | exact H]. }
+    assert (Hold : forall q m, m <> x -> (In q (parents s2 m) <-> In q (parents s m))).
+    { intros q m Hm. rewrite Eff, alloc_parents_In by exact W. split; [intros [H|[H _]]; [exact H | contradiction] | auto]. }
+    assert (Hback : forall a b, path s2 a b -> b <> x -> path s a b).
+    { intros a b Hp. induction Hp as [a b H | a p b _ IH H]; intros Hb.
+      - apply path1. apply Hold; assumption.
+      - apply Hold in H; [|exact Hb]. eapply pathS; [apply IH | exact H].
+        apply (l_bnd s L) in H. unfold x. lia. }
+    apply set_children_accepts_iff; [exact W2'|]. split; [exact Hci|]. split; [exact Hjc|]. split; [exact Hndc|].
+    intros c Hc. pose proof (ids_in_range s _ Hrc c Hc) as Hlt. split; [unfold x; lia|].
+    intro Hpath.
+    assert (Hcl : forall p, In p (ids_of (carg_args pa)) -> closes_loop_b s p c = false).
+    { intros p Hp. pose proof (existsb_false_inv _ _ Hloop c Hc) as H1. cbv beta in H1.
+      exact (existsb_false_inv _ _ H1 p Hp). }
+    inversion Hpath as [a b H | a p b Hp H]; subst.
+    + apply Hpx in H. specialize (Hcl c H). unfold closes_loop_b in Hcl. rewrite Nat.eqb_refl in Hcl. discriminate.
+    + apply Hpx in H. specialize (Hcl p H). unfold closes_loop_b in Hcl. apply orb_false_iff in Hcl. destruct Hcl as [_ Hre].
+      assert (Hpne : p <> x) by (pose proof (ids_in_range s _ Hrp p H); unfold x; lia).
+      apply Hback in Hp; [|exact Hpne]. apply reach_spec in Hp; [|exact W]. rewrite Hp in Hre. discriminate.
 Qed.
